@@ -65,4 +65,10 @@ CLAIMED = {
          "functions of the draw stream; scaling the data scales the ALS update / HOSVD core / HOOI step and keeps the fit and the chosen ranks; consistent mode relabelling commutes with a sweep. "
          "Whole-run CP-ALS scale equivariance is _partial (step simulation only) and validated on the implementation. Paired runs: dense vs sparse, printing intervals, equal seeds, scale factors, all relabellings for N=3",
          _NOTE + "; that the real kernels compute the specification sums is C02's claim and a hypothesis here; paired runs are compared at 1e-8 (1e-6 for whole-run CP-ALS scaling); ill-conditioned pairs are tagged and not judged", "DESIGN.md 7 (C18)"),
+ "C19": ("Lean 4 theorems 'validation prefix accepts iff the stated precondition holds' for models of every operation's argument checking + malformed-request stream against the real code",
+         "for every covered public operation (ttv/ttm/mttkrp in all representations, ttt, contract, collapse, scale, permute, reshape, to_tenmat/to_sptenmat, the constructors, from_aggregator, from_vector, extract, "
+         "Kruskal mode/permutation arguments, masks, khatrirao, tt_dimscheck, import_data, option validation of the five algorithms) the code's checks are modelled in source order incl. the NumPy primitives they rely on, "
+         "and validate_op args = ok is proved equivalent to the decidable precondition written from the property's list, for all shapes and arguments; rejected in-place requests are proved to return the input state. "
+         "The harness violates each precondition separately across shapes chosen so the violation can broadcast or divide by accident, checks raise/no-raise against the precondition and the model, and compares the receiver bitwise",
+         _NOTE + "; any exception counts as rejection; receiver-unchanged for non-in-place operations is checked on the implementation, not proved; 25 introspected methods are tagged uncovered in the evidence", "DESIGN.md 7 (C19)"),
 }
